@@ -21,8 +21,13 @@ import (
 var c11Symbols = []string{"a", "\n", "\r"}
 
 type c11Case struct {
-	Files []string `json:"files"` // Go-quoted contents
+	Files   []string `json:"files"` // Go-quoted contents
+	NameSet int      `json:"file_name_set,omitempty"`
 }
+
+// file names: plain, and ones a formatting shortcut would trip over (format verbs, separators, empty)
+var c11Names = [][]string{{"f0", "f1", "f2"}, {"my%20file", "%d.expr", "100%"}, {"a:b", "", "x y"}}
+var c11NameSet = 0
 
 func c11Contents(maxLen int) []string {
 	var out []string
@@ -47,7 +52,7 @@ func c11Set(res *explore.Result, contents []string, verbose bool) {
 	for i, c := range contents {
 		quoted[i] = strconv.Quote(c)
 	}
-	cs := c11Case{quoted}
+	cs := c11Case{quoted, c11NameSet}
 	desc := "files [" + strings.Join(quoted, ", ") + "]"
 	norm := make([][]byte, len(contents))
 	bases := make([]int, len(contents))
@@ -58,6 +63,13 @@ func c11Set(res *explore.Result, contents []string, verbose bool) {
 		next += len(norm[i]) + 1
 	}
 	last := next - 1 // the last file's end-of-file position: the last valid global position
+	nameOf := func(i int) string { return c11Names[c11NameSet][i%len(c11Names[c11NameSet])] }
+	show := func(i, l, c int) string {
+		if nameOf(i) == "" {
+			return fmt.Sprintf("%d:%d", l, c) // documented: a position without a file name renders as line:column
+		}
+		return fmt.Sprintf("%s:%d:%d", nameOf(i), l, c)
+	}
 	expected := func(p int) string {
 		if p <= 0 || p > last {
 			return "unknown"
@@ -69,7 +81,7 @@ func c11Set(res *explore.Result, contents []string, verbose bool) {
 					return "unknown" // cannot happen with the documented layout
 				}
 				l, c := lineColOf(norm[i], off)
-				return fmt.Sprintf("f%d:%d:%d", i, l, c)
+				return show(i, l, c)
 			}
 		}
 		return "unknown"
@@ -82,7 +94,7 @@ func c11Set(res *explore.Result, contents []string, verbose bool) {
 	mk := func() []*text.File {
 		fs := make([]*text.File, len(contents))
 		for i, c := range contents {
-			fs[i] = text.NewFile(fmt.Sprintf("f%d", i), []byte(c))
+			fs[i] = text.NewFile(nameOf(i), []byte(c))
 		}
 		return fs
 	}
@@ -184,7 +196,7 @@ func c11Set(res *explore.Result, contents []string, verbose bool) {
 				}
 				seenGlobal[gp] = fmt.Sprintf("f%d+%d", i, off)
 				l, c := lineColOf(norm[i], off)
-				want := fmt.Sprintf("f%d:%d:%d", i, l, c)
+				want := show(i, l, c)
 				if got := f.Position(off).String(); got != want {
 					res.Violate("File.Position", fmt.Sprintf("%s (%s): file %d Position(%d) = %s, expected %s", desc, v.name, i, off, got, want), cs)
 					return
@@ -226,6 +238,14 @@ func c11Run(env *explore.Env) *explore.Result {
 					return
 				}
 				c11Set(res, append([]string{}, cur...), false)
+				if idx%7 == 0 {
+					// every 7th file set also with the other file-name sets
+					for ns := 1; ns < len(c11Names); ns++ {
+						c11NameSet = ns
+						c11Set(res, append([]string{}, cur...), false)
+					}
+					c11NameSet = 0
+				}
 				nontrivial := b.files > 1
 				for _, c := range cur {
 					if strings.ContainsAny(c, "\r\n") {
@@ -265,6 +285,9 @@ func c11Replay(raw json.RawMessage) *explore.Result {
 			return res
 		}
 		contents = append(contents, s)
+	}
+	if c.NameSet >= 0 && c.NameSet < len(c11Names) {
+		c11NameSet = c.NameSet
 	}
 	c11Set(res, contents, true)
 	return res
